@@ -74,8 +74,12 @@ CHECKS = {
  'C04': dict(engine='P', technique='exhaustive product role x call form x specification pattern vector with decoy sites; independent reference matcher (plain regexp on generator facts) vs the roles the real analysis assigns',
              text='5625 cells (4 roles x up to 9 call forms x 225 pattern vectors), three call sites each (target, similarly named function, same method on another receiver): the reference says matched/unmatched per site and the reported flows of a skeleton program reveal whether the tool treated the site in the role; both missed and spurious matches are violations.',
              note='receiver patterns on interface calls unjudged; identifier kinds type/field/store/channel and value-match not covered; backtrace-point role not covered', ref='§6 C04'),
+
+ 'C06': dict(engine='S', technique='stateless DFS over worker schedules (preemption-bounded, per NumCPU answer) and enumeration of map-iteration-order assignments on the real analyzer, rewritten with types onto a controlled scheduler and a map-order seam',
+             text='The whole taint analysis (real code; 275 map ranges and all concurrency constructs mechanically rewritten) runs under the controlled scheduler: the baseline is replayed twice, then every schedule within the preemption bound for 2, 3 and 4 workers and every single relevant map site flipped to descending / rotated (plus all sites) must give the same canonical flows/escapes/error as the baseline.',
+             note='map orders limited to three policies per site; schedule exploration capped per worker count in quick; internal/pointer not rewritten; backtrace not yet included', ref='§6 C06'),
 }
-NA = [dict(property_id='C06', reason='not claimed yet: the map-iteration-order seam (typed rewrite of every map range in the analyzer packages) is not built; model checking does apply and the check is planned (DESIGN.md section 6 C06)')]
+NA = []
 def main():
     checks = []
     for pid, c in sorted(CHECKS.items()):
